@@ -428,9 +428,12 @@ func (vc *VC) typeTag(t types.Type) Term {
 func (vc *VC) box(v Val) Term {
 	switch v.K {
 	case KInt, KPtr, KMap, KChan, KFunc, KFloat:
-		if len(v.Path) != 0 {
-			vc.unsupported("interior pointer boxed in interface")
-			return vc.freshInt("box")
+		if len(v.Path) != 0 || v.Local != "" {
+			// pointer to a field / element / local: keep the structured address on the side
+			t := vc.freshInt("box.addr")
+			vc.assumeRaw(Ne(t, IntLit(0)))
+			vc.boxed[t.S] = v
+			return t
 		}
 		return v.T
 	case KBool:
@@ -447,6 +450,9 @@ func (vc *VC) box(v Val) Term {
 }
 
 func (vc *VC) unbox(payload Term, t types.Type) Val {
+	if v, ok := vc.boxed[payload.S]; ok {
+		return v
+	}
 	switch kindOf(t) {
 	case KInt, KPtr, KMap, KChan, KFunc, KFloat:
 		v := Val{K: kindOf(t), T: payload, Typ: t}
